@@ -37,7 +37,9 @@ LinePool == <<
   S("@l: [i1, [a], i2];"),
   S("@m: {k: [i1, b + i1]};"),
   S("@description: [i7]; a"),
-  S("@name: ") \o Q1 \o S("n2") \o Q1 \o S("; @k: i1; c") >>
+  S("@name: ") \o Q1 \o S("n2") \o Q1 \o S("; @k: i1; c"),
+  S("@name: ") \o Q1 \o S("  padded name ") \o <<9>> \o Q1 \o S(";"),
+  S("b == ") \o Q1 \o S("x") \o <<13>> \o S("y") \o <<13, 10>> \o S("z") \o Q1 >>
 
 Term == IF style = 2 THEN <<13, 10>> ELSE <<10>>
 RECURSIVE Assemble(_)
